@@ -17,8 +17,9 @@ RULE = ("sequences of 1..6 legacy requests (OK-terminated queries, the documente
 TRUSTED = ["pyserial behaviour = fake port", "the conforming legacy board: data line then OK for ordinary queries, one line for the no-OK queries, OK for commands"]
 ASSUMPTIONS = ["ASCII replies; faults are SerialException"]
 
-QUERIES = ["QB\r", "QS\r", "QC\r", "QP\r", "QL\r", "QT\r", "QE\r", "QR\r", "PI,E,0\r", "V\r", "v\r", "QM\r", "QG\r", "I\r", "A\r", "MR\r", " qg \r", "PI,C,1\r", "i,2\r"]
-COMMANDS = ["EM,1,1\r", "SP,1\r", "SM,10,0,0\r", "TP\r", "RB\r", "SC,4,100\r", "LM,1,2,3,4,5,6\r"]
+QUERIES = ["QB\r", "QS\r", "QC\r", "QP\r", "QL\r", "QT\r", "QE\r", "QR\r", "PI,E,0\r", "V\r", "v\r", "QM\r", "QG\r", "I\r", "A\r", "MR\r", " qg \r", "PI,C,1\r", "i,2\r",
+           "QT{}\r", "QL,{0}\r", "Q%s\r"]               # text that a logging/formatting layer could mistake for a template
+COMMANDS = ["EM,1,1\r", "SP,1\r", "SM,10,0,0\r", "TP\r", "RB\r", "SC,4,100\r", "LM,1,2,3,4,5,6\r", "ST,{AxiDraw}\r", "SM,{0},1\r", "ST,100%d\r", "SL,{\r", "ST,}x{\r"]
 NOOK = ["a", "i", "mr", "pi", "qm", "qg", "v"]
 
 def _reply(rng, kind, text, k):
